@@ -35,24 +35,10 @@ def run_harness(R, env_extra, tag):
     return rc, out, trace
 
 
-def run_runner(exe, trace_text):
-    rc, out = vlib.sh(exe, stdin=trace_text, timeout=2400)
+def run_runner(exe, trace_path):
+    """runner reads the trace from the file (traces of the thorough tier are hundreds of MB)"""
+    rc, out = vlib.sh("%s < %s" % (exe, trace_path), timeout=3000)
     return out
-
-
-def split_cases(lines):
-    """-> list of (first_lineno(1-based), [lines])"""
-    cases, cur, start = [], None, 0
-    for i, l in enumerate(lines, 1):
-        if l.startswith("case "):
-            cur, start = [l], i
-        elif cur is not None:
-            cur.append(l)
-            if l == "end":
-                cases.append((start, cur)); cur = None
-    if cur:
-        cases.append((start, cur))
-    return cases
 
 
 def case_ops(case_lines):
@@ -60,10 +46,9 @@ def case_ops(case_lines):
 
 
 def analyse(R, runner, trace, label, count=True):
-    """Run the model/oracle over a trace; returns list of findings (kind, lineno, caseid, sig, detail)."""
-    text = open(trace, errors="replace").read()
-    lines = text.split("\n")
-    out = run_runner(runner, text)
+    """Run the model/oracle over a trace; returns (findings, cases) where cases holds only the cases that contain a
+    finding: list of (first_lineno(1-based), [lines])."""
+    out = run_runner(runner, trace)
     if "DONE" not in out:
         R.proof_problems.append("runner did not finish on %s: %s" % (label, out[-300:]))
     finds = []
@@ -76,58 +61,65 @@ def analyse(R, runner, trace, label, count=True):
             finds.append(("diverge", int(p[1]), p[2], p[3], p[4] if len(p) > 4 else ""))
         elif l.startswith("BADLINE"):
             R.proof_problems.append("runner could not parse: " + l[:200])
-    cases = split_cases(lines)
-    if count:
-        kinds = R.coverage.setdefault("distribution", {})
-        distinct = set()
-        nontriv = 0
-        for start, cl in cases:
-            opk = set()
-            changed = False
-            for l in cl:
-                f = l.split(" ")
+    want = sorted(set(f[1] for f in finds))
+    kinds = R.coverage.setdefault("distribution", {})
+    sit = R.coverage.setdefault("situations", {})
+    def bump(k, n=1): sit[k] = sit.get(k, 0) + n
+    distinct, nontriv, ncases, samples, cases = set(), 0, 0, [], []
+    cur, start, opk, changed, h = None, 0, set(), False, None
+    dump_pfx, dump_faces = {}, {}
+    wi = 0
+    with open(trace, errors="replace") as fh:
+        for i, l in enumerate(fh, 1):
+            l = l.rstrip("\n")
+            f = l.split(" ")
+            if f[0] == "case":
+                cur, start, opk, changed, h = [], i, set(), False, hashlib.sha1()
+                ncases += 1
+                if count: kinds["case " + f[1]] = kinds.get("case " + f[1], 0) + 1
+            if cur is None:
+                continue
+            cur.append(l)
+            if f[0] in ("case", "op"):
+                h.update((l + "\n").encode())
+            if count:
                 if f[0] == "op":
                     opk.add(f[1]); kinds["op " + f[1]] = kinds.get("op " + f[1], 0) + 1
-                elif f[0] == "case":
-                    kinds["case " + f[1]] = kinds.get("case " + f[1], 0) + 1
+                    if f[1] == "ans" and len(f) > 3 and f[3].startswith("s"): bump("answers_from_snapshot_cache")
+                    elif f[1] == "tmo": bump("fetch_timeouts_or_nacks")
                 elif f[0] == "obs":
-                    if f[1] == "peer" and f[-1] != "-": changed = True
-                    if f[1] in ("rt", "cmds") and f[-1] != "-": changed = True
-            if len(opk) >= 3 and changed:
-                nontriv += 1
-                distinct.add(hashlib.sha1("\n".join(case_ops(cl)).encode()).hexdigest())
-        # situation counters (what the generated histories actually reached)
-        sit = R.coverage.setdefault("situations", {})
-        def bump(k, n=1): sit[k] = sit.get(k, 0) + n
-        dump_pfx, dump_faces = {}, {}
-        for l in lines:
-            f = l.split(" ")
-            if f[0] == "obs" and f[1] == "peer":
-                if f[6] == "snap": bump("peer_obs_with_snapshot_request_pending")
-                if f[6].startswith("op:"): bump("peer_obs_with_op_request_pending")
-                if f[3] != "0" and f[-1] != "-": bump("peer_obs_nonempty_set")
-            elif f[0] == "op" and f[1] == "ans" and len(f) > 3 and f[3].startswith("s"): bump("answers_from_snapshot_cache")
-            elif f[0] == "op" and f[1] == "tmo": bump("fetch_timeouts_or_nacks")
-            elif f[0] == "tab" and f[1] == "me":
-                dump_pfx, dump_faces = {}, {}
-            elif f[0] == "tab" and f[1] == "pfx" and f[3] != "-":
-                for x in f[3].split(","): dump_pfx[x] = dump_pfx.get(x, 0) + 1
-            elif f[0] == "tab" and f[1] == "nbr":
-                dump_faces[f[3]] = dump_faces.get(f[3], 0) + 1
-            elif f[0] == "go":
-                bump("fib_rounds_checked")
-                if any(v > 1 for v in dump_pfx.values()): bump("fib_rounds_with_multihomed_prefix")
-                if any(v > 1 for k, v in dump_faces.items() if k != "0"): bump("fib_rounds_with_two_neighbours_on_one_face")
-            elif f[0] == "obs" and f[1] == "cmds" and f[2] != "-":
-                bump("fib_rounds_emitting_commands")
-                if "U:" in f[2]: bump("fib_rounds_emitting_unregister")
-                if "R:" in f[2] and "U:" in f[2]: bump("fib_rounds_emitting_both")
-        samples = []
-        for start, cl in cases[:2]:
-            samples.append(" | ".join(case_ops(cl)[:8])[:300])
-        R.add_cases(len(cases), len(distinct), samples)
+                    if f[1] == "peer":
+                        if f[-1] != "-": changed = True
+                        if f[6] == "snap": bump("peer_obs_with_snapshot_request_pending")
+                        elif f[6].startswith("op:"): bump("peer_obs_with_op_request_pending")
+                        if f[3] != "0" and f[-1] != "-": bump("peer_obs_nonempty_set")
+                    elif f[1] == "cmds" and f[2] != "-":
+                        changed = True
+                        bump("fib_rounds_emitting_commands")
+                        if "U:" in f[2]: bump("fib_rounds_emitting_unregister")
+                        if "R:" in f[2] and "U:" in f[2]: bump("fib_rounds_emitting_both")
+                elif f[0] == "tab":
+                    if f[1] == "me": dump_pfx, dump_faces = {}, {}
+                    elif f[1] == "pfx" and f[3] != "-":
+                        for x in f[3].split(","): dump_pfx[x] = dump_pfx.get(x, 0) + 1
+                    elif f[1] == "nbr": dump_faces[f[3]] = dump_faces.get(f[3], 0) + 1
+                elif f[0] == "go":
+                    bump("fib_rounds_checked")
+                    if any(v > 1 for v in dump_pfx.values()): bump("fib_rounds_with_multihomed_prefix")
+                    if any(v > 1 for k, v in dump_faces.items() if k != "0"): bump("fib_rounds_with_two_neighbours_on_one_face")
+            if l == "end":
+                if count and len(opk) >= 3 and changed:
+                    nontriv += 1
+                    distinct.add(h.hexdigest())
+                if len(samples) < 2:
+                    samples.append(" | ".join(case_ops(cur)[:8])[:300])
+                if any(start <= w < i + 1 for w in want):
+                    cases.append((start, cur))
+                cur = None
+    if count:
+        R.add_cases(ncases, len(distinct), samples)
         R.coverage["nontrivial_cases"] = R.coverage.get("nontrivial_cases", 0) + nontriv
-    return finds, cases, lines
+    return finds, cases, None
 
 
 def case_of_line(cases, lineno):
@@ -144,7 +136,7 @@ def reproduce(R, runner, ops, want_kind, want_sig):
     rc, out, trace = run_harness(R, dict(VERIF_OPS=p), "shrink")
     if rc != 0:
         return want_kind == "crash"
-    o = run_runner(runner, open(trace, errors="replace").read())
+    o = run_runner(runner, trace)
     for l in o.split("\n"):
         p_ = l.split(" ", 4)
         if want_kind == "oracle" and l.startswith("ORACLE") and p_[3] == want_sig: return True
